@@ -580,6 +580,17 @@ def reportErrors(obj: model.Documentable, errs: Sequence[ParseError], section:st
                 section=section
                 )
 
+def _encodable(doc: str) -> str:
+    """
+    Lone surrogates (that can be written in source code with escapes) cannot be encoded
+    to UTF-8 when the pages are written: show them as backslash escapes instead.
+    """
+    try:
+        doc.encode('utf-8')
+    except UnicodeEncodeError:
+        return doc.encode('utf-8', 'backslashreplace').decode('utf-8')
+    return doc
+
 _docformat_skip_processtypes = ('google', 'numpy', 'plaintext')
 def parse_docstring(
         obj: model.Documentable,
@@ -599,6 +610,7 @@ def parse_docstring(
     """
 
     docformat = _get_docformat(source) if not markup else markup
+    doc = _encodable(doc)
 
     # fetch the parser function
     try:
@@ -746,7 +758,7 @@ def format_docstring_fallback(errs: List[ParseError], parsed_doc:ParsedDocstring
     if ctx.docstring is None:
         stan = BROKEN
     else:
-        parsed_doc_plain = pydoctor.epydoc.markup.plaintext.parse_docstring(ctx.docstring, errs)
+        parsed_doc_plain = pydoctor.epydoc.markup.plaintext.parse_docstring(_encodable(ctx.docstring), errs)
         stan = parsed_doc_plain.to_stan(ctx.docstring_linker)
     return stan
 
